@@ -54,6 +54,8 @@ def write_tree(root: str, files: dict[str, str]) -> None:
         os.makedirs(os.path.dirname(p), exist_ok=True)
         if text is None:
             os.makedirs(p, exist_ok=True)
+        elif text.startswith("SYMLINK->"):
+            os.symlink(text[len("SYMLINK->"):].strip(), p)  # (relative to the directory of the link; may dangle)
         else:
             with open(p, "w") as f:
                 f.write(text)
